@@ -273,8 +273,14 @@ def check_t3(chk, m, K):
                        "contain differences such as %d" % sum((1 << i) for i in range(32) if asg.get(i)))
         ins = C01.insertion_sites(p, K)
         if expired is True:
-            ok = p.ret is not None and p.ret[0] == "c" and p.ret[2] != 0 and not ins
-            chk.ob("T3.timeout-predicate", pid, ok, "due time not after now: returns true and registers nothing", p.ret_inst.loc, fn.name)
+            wr = [e for e in p.events if e.kind == "store" and ptr_parts(e.ptr)[1] == K.fibre["duetime"][0] and not ptr_parts(e.ptr)[2]
+                  and ptr_parts(e.ptr)[0][0] == "ld" and ptr_parts(e.ptr)[0][1] == K.kptr("current")]
+            ok = p.ret is not None and p.ret[0] == "c" and p.ret[2] != 0 and not ins and not wr
+            chk.ob("T3.timeout-predicate", pid, ok,
+                   "due time not after now: returns true and registers nothing" if not wr else
+                   "due time not after now: true is returned, but current->duetime has been overwritten (%s): if the fibre armed a later "
+                   "timeout earlier in this dispatch it sits on the timer queue under that key - the queue is no longer sorted and the "
+                   "fibre is woken at the wrong time" % wr[0].inst.loc, p.ret_inst.loc, fn.name)
         elif expired is False:
             st = [k for k, e in enumerate(p.events) if e.kind == "store" and e.val == ("arg", 0) and ptr_parts(e.ptr)[1] == K.fibre["duetime"][0]
                   and ptr_parts(e.ptr)[0][0] == "ld" and ptr_parts(e.ptr)[0][1] == K.kptr("current")]
